@@ -272,6 +272,8 @@ pub struct Budget {
     pub small: bool,
     pub max_frames: usize,
     pub max_cost: u64,
+    /// every `bigshare`-th case is one frame (plus a short one) of a BIG block (600..32767 samples); 0 = never
+    pub bigshare: usize,
 }
 
 fn modes_cycle(i: usize) -> Mode {
@@ -305,6 +307,7 @@ pub fn gen_cases(profile: &str, seed: u64, b: &Budget) -> Vec<Case> {
         let relation = gen::RELATIONS[(idx / 7) % gen::RELATIONS.len()].to_string();
         let mut bs = gen::block_size(&mut rng, b.small);
         let mut cfg = gen::config(&mut rng, bs);
+        let mut wide: Option<usize> = None;
         let mut mode = modes_cycle(idx);
         let mut bps = bps;
         match profile {
@@ -324,6 +327,14 @@ pub fn gen_cases(profile: &str, seed: u64, b: &Budget) -> Vec<Case> {
                 }
                 cfg.max_parameter = [14, 0, 1, 2, 14, 7, 14, 3][(idx / 3) % 8];
                 cfg.partitions = [Some(16), None, Some(1), Some(64), None][(idx / 5) % 5];
+                if profile == "c09" && idx % 25 == 7 {
+                    // coded sizes of 2^32 + delta bits: 32-bit size accumulators wrap
+                    family = "wrap32".to_string();
+                    bps = if idx % 50 == 7 { 24 } else { 20 };
+                    bs = if bps == 24 { [384, 1024, 4096, 600][(idx / 50) % 4] } else { [4608, 8192][(idx / 50) % 2] };
+                    cfg = Cfg { block_size: bs, max_parameter: if idx % 75 == 7 { 0 } else { 14 }, use_lpc: idx % 100 != 7, ..Cfg::default() };
+                    mode = Mode::St;
+                }
                 if profile == "c13" {
                     bs = [64, 128, 192, 256, 512, 576, 1024, 320][(idx / 2) % 8];
                     cfg.block_size = bs;
@@ -377,6 +388,17 @@ pub fn gen_cases(profile: &str, seed: u64, b: &Budget) -> Vec<Case> {
                     cfg.alpha = None;
                 }
             }
+            "c03" | "c05" | "c14" if idx % 25 == 21 => {
+                // many interleaved samples per block (block size x channels well above 2^14) with channel counts
+                // that are not powers of two: internal chunking of the hashing / conversion paths
+                let k = idx / 25;
+                let (b, c) = [(4096usize, 6usize), (6000, 3), (2731, 7), (4096, 5), (2304, 8), (16384, 2), (3277, 5), (8192, 3)][k % 8];
+                bs = b;
+                wide = Some(c);
+                cfg = Cfg { block_size: bs, use_lpc: false, fixed_max_order: 1, ..Cfg::default() };
+                mode = [Mode::Mt(2), Mode::St, Mode::Mt(3), Mode::Mt(1)][k % 4].clone();
+                bps = [16, 24, 8, 20, 12][k % 5];
+            }
             "c04" => {
                 mode = if idx % 3 == 0 { Mode::Mt(2) } else if idx % 3 == 1 { Mode::St } else { Mode::Mt(1) };
             }
@@ -391,15 +413,28 @@ pub fn gen_cases(profile: &str, seed: u64, b: &Budget) -> Vec<Case> {
             cfg.block_size = bs;
             cfg.use_lpc = false;
         }
+        let big = b.bigshare > 0 && idx % b.bigshare == b.bigshare / 2 && !long && !["dcedge", "ricebump", "wrap32"].contains(&family.as_str()) && profile != "c13";
+        if big {
+            bs = [4096usize, 2304, 8192, 16384, 4608, 32767, 1152, 12000][(idx / b.bigshare) % 8];
+            cfg.block_size = bs;
+        }
         let mut n = gen::length(&mut rng, bs, b.max_frames);
         let mut ch = ch;
+        if big {
+            ch = if bs >= 8192 { 1 } else { 1 + (idx / b.bigshare) % 2 };
+            n = bs + [0usize, 1, 40, 0][(idx / b.bigshare) % 4];
+        }
         if family == "dcedge" {
             ch = 1;
             n = bs + idx % 7;
         }
-        if family == "ricebump" {
+        if family == "ricebump" || family == "wrap32" {
             ch = 1;
             n = bs;
+        }
+        if let Some(c) = wide {
+            ch = c;
+            n = bs * (1 + idx % 2) + [0usize, 1, 100][idx % 3];
         }
         if long {
             ch = 1 + idx % 2;
@@ -425,8 +460,12 @@ pub fn gen_cases(profile: &str, seed: u64, b: &Budget) -> Vec<Case> {
                 }
             }
         }
-        let delivery = if rng.gen_bool(0.3) { Delivery::Bytes } else { Delivery::Ints };
+        let delivery = if rng.gen_bool(if wide.is_some() { 0.15 } else { 0.3 }) { Delivery::Bytes } else { Delivery::Ints };
         let family = if long { format!("long:{family}") } else { family };
+        // the configuration's own block-size field differs from the requested block size in about a third of the cases (moduli coprime to the mode cycle)
+        if idx % 5 == 1 || idx % 7 == 3 {
+            cfg.field_bs = [4096usize, 32, 32767, 1152, (bs + 1).min(32767), 4096][(idx / 5) % 6];
+        }
         let case = Case {
             id: format!("{profile}-{seed}-{idx}"),
             g,
@@ -435,7 +474,7 @@ pub fn gen_cases(profile: &str, seed: u64, b: &Budget) -> Vec<Case> {
             cfg,
             mode,
             delivery,
-            hint: rng.gen_bool(0.6),
+            hint: rng.gen_bool(if wide.is_some() { 0.25 } else { 0.6 }),
             fill_at_eof: rng.gen_bool(0.6),
             chans,
         };
